@@ -35,6 +35,61 @@ THR_STUB = [F(3, 10), F(45, 100), F(1, 2), F(1, 4), F(3, 4), F(1), F(0), F(55, 1
 THR_REAL = [0.45, 0.3, 0.55, 0.6, 0.2, 0.75, 0.4, 0.5, 0.35]
 
 
+# The documented defaults of Partial.partial_cluster (signature and its kw dict) and of
+# Partial.__init__ / add_cognate_ids.  A case may OMIT optional keywords ("omit"); the call then
+# relies on the library's own defaults while the model is given these documented values.
+# (cluster_method cannot be omitted here: its default 'infomap' needs igraph, which is absent.)
+DOC_DEFAULTS = {"post_processing": True, "imap_mode": True, "threshold": 0.45, "method": "sca",
+                "ref": "partial_cognate_sets", "idtype": "strict"}
+OMITTABLE = ["post_processing", "imap_mode", "threshold", "method", "ref", "idtype"]
+
+
+def source_defaults():
+    """The defaults as the current source states them (signature + the kw dict literal of
+    partial_cluster + Partial.__init__), for comparison with DOC_DEFAULTS."""
+    import ast
+    import inspect
+    import textwrap
+    from lingpy.compare.partial import Partial
+    sig = inspect.signature(Partial.partial_cluster)
+    out = {"threshold": sig.parameters["threshold"].default, "method": sig.parameters["method"].default,
+           "idtype": inspect.signature(Partial.add_cognate_ids).parameters["idtype"].default}
+    for fn, names in ((Partial.partial_cluster, {"imap_mode": "imap_mode", "post_processing": "post_processing"}),
+                      (Partial.__init__, {"partial_cognates": "ref"})):
+        tree = ast.parse(textwrap.dedent(inspect.getsource(fn)))
+        for node in ast.walk(tree):
+            if isinstance(node, ast.Assign) and any(isinstance(t, ast.Name) and t.id == "kw" for t in node.targets):
+                v = node.value
+                if isinstance(v, ast.Call):
+                    for k in v.keywords:
+                        if k.arg in names:
+                            out[names[k.arg]] = ast.literal_eval(k.value)
+                elif isinstance(v, ast.Dict):
+                    for k, val in zip(v.keys, v.values):
+                        if isinstance(k, ast.Constant) and k.value in names:
+                            out[names[k.value]] = ast.literal_eval(val)
+    return out
+
+
+def gen_omit(rng):
+    if rng.random() < 0.6:
+        return []
+    k = rng.choice([1, 1, 1, 2, 2, 3, len(OMITTABLE)])
+    return sorted(rng.sample(OMITTABLE, k))
+
+
+def apply_omit(case, omit):
+    """Omitted keywords take their documented default in the case description."""
+    case["omit"] = sorted(omit)
+    if "post_processing" in omit:
+        case["post"] = DOC_DEFAULTS["post_processing"]
+    if "imap_mode" in omit:
+        case["imap"] = DOC_DEFAULTS["imap_mode"]
+    if "threshold" in omit:
+        case["thr"] = F(45, 100) if case["stream"] == "stub" else DOC_DEFAULTS["threshold"]
+    return case
+
+
 # ---------------------------------------------------------------------------------------
 # generators
 
@@ -110,7 +165,7 @@ def gen_case(rng, stream, big=False):
         case["method"] = rng.choice(METHODS_REAL)
         case["thr"] = rng.choice(THR_REAL)
         case["stub"] = None
-    return case
+    return apply_omit(case, gen_omit(rng))
 
 
 def exhaustive_cases():
@@ -126,11 +181,13 @@ def exhaustive_cases():
         for wb in words:
             for seed in (1, 2):
                 for meth in ("upgma", "single", "complete"):
-                    for imap in (False, True):
-                        for post in (False, True):
-                            yield {"stream": "stub", "rows": [("L0", "c0", wa), ("L1", "c0", wb), ("L2", "c0", wa)],
-                                   "imap": imap, "post": post, "method": meth, "thr": F(1, 2),
-                                   "stub": {"seed": seed, "grid": "coarse", "zerodiv": 0}}
+                    for imap in (False, True, None):            # None: keyword omitted
+                        for post in (False, True, None):
+                            omit = [n for n, v in (("imap_mode", imap), ("post_processing", post)) if v is None]
+                            yield apply_omit(
+                                {"stream": "stub", "rows": [("L0", "c0", wa), ("L1", "c0", wb), ("L2", "c0", wa)],
+                                 "imap": imap, "post": post, "method": meth, "thr": F(1, 2),
+                                 "stub": {"seed": seed, "grid": "coarse", "zerodiv": 0}}, omit)
 
 
 # ---------------------------------------------------------------------------------------
@@ -200,6 +257,8 @@ def run_impl(case):
     for i, (l, c, t) in enumerate(case["rows"]):
         D[i + 1] = [l, c, list(t)]
     stub = case["stub"]
+    omit = case.get("omit", [])
+    pid = DOC_DEFAULTS["ref"] if "ref" in omit else "pid"
     saved_pb, saved_calign, saved_fc = lingpy.util.pb, P.calign, CL.flat_cluster
     lingpy.util.pb = functools.partial(tqdm, leave=False, disable=True)
     logging.disable(logging.CRITICAL)
@@ -276,8 +335,11 @@ def run_impl(case):
         CL.flat_cluster = fc
         status = 0
         try:
-            wl.partial_cluster(method="sca", threshold=float(case["thr"]), cluster_method=case["method"],
-                               imap_mode=case["imap"], post_processing=case["post"], ref="pid")
+            kwargs = dict(method="sca", threshold=float(case["thr"]), cluster_method=case["method"],
+                          imap_mode=case["imap"], post_processing=case["post"], ref="pid")
+            for name in omit:
+                kwargs.pop(name, None)       # rely on the library's default
+            wl.partial_cluster(**kwargs)
         except ZeroDivisionError:
             status = 1
         except AttributeError as e:
@@ -293,9 +355,12 @@ def run_impl(case):
         if status:
             res.update(out=[], order=[], strict=[], loose=[], cmp=2, collisions=0, tie_excluded=False)
             return res
-        out = [[(k, [int(x) for x in wl[k, "pid"]]) for k, _ in ws] for ws in view]
-        wl.add_cognate_ids("pid", "strictid", idtype="strict")
-        wl.add_cognate_ids("pid", "looseid", idtype="loose")
+        out = [[(k, [int(x) for x in wl[k, pid]]) for k, _ in ws] for ws in view]
+        if "idtype" in omit:
+            wl.add_cognate_ids(pid, "strictid")
+        else:
+            wl.add_cognate_ids(pid, "strictid", idtype="strict")
+        wl.add_cognate_ids(pid, "looseid", idtype="loose")
         res["out"] = out
         res["order"] = [int(k) for k in wl]
         res["strict"] = [int(wl[k, "strictid"]) for k in wl]
@@ -428,6 +493,10 @@ def shrink(case):
         c = dict(case)
         c["stub"] = dict(case["stub"], zerodiv=0)
         yield c
+    for name in case.get("omit", []):
+        c = dict(case)
+        c["omit"] = [n for n in case["omit"] if n != name]
+        yield c
 
 
 def classify(case, res):
@@ -435,6 +504,9 @@ def classify(case, res):
     tags = ["stream=" + case["stream"], "method=" + case["method"], "imap=%s" % case["imap"],
             "post=%s" % case["post"], "status=%d" % res["status"], "cmp=%d" % res["cmp"],
             "max_morphemes_per_concept=%d" % nm]
+    tags += ["omitted=" + n for n in case.get("omit", [])]
+    if not case.get("omit"):
+        tags.append("all_keywords_passed")
     if res["collisions"]:
         tags.append("same_word_collision")
     if res["tie_excluded"]:
@@ -491,7 +563,7 @@ def d_gen_case(rng, big=False):
     if not rows:
         rows.append(("L0", "c0", [1]))
     rng.shuffle(rows)
-    return {"stream": "derive", "rows": rows}
+    return {"stream": "derive", "rows": rows, "omit": ["idtype"] if rng.random() < 0.3 else []}
 
 
 def d_run_impl(case):
@@ -507,7 +579,10 @@ def d_run_impl(case):
     logging.disable(logging.CRITICAL)
     try:
         wl = P.Partial(D, check=False)
-        wl.add_cognate_ids("src", "strictid", idtype="strict")
+        if "idtype" in case.get("omit", []):
+            wl.add_cognate_ids("src", "strictid")
+        else:
+            wl.add_cognate_ids("src", "strictid", idtype="strict")
         wl.add_cognate_ids("src", "looseid", idtype="loose")
         src, loose = [], []
         for c in wl.rows:
@@ -561,7 +636,7 @@ def d_shrink(case):
 
 
 def d_classify(case, res):
-    tags = ["stream=derive", "words=%d" % len(case["rows"])]
+    tags = ["stream=derive", "words=%d" % len(case["rows"])] + ["omitted=" + n for n in case.get("omit", [])]
     if any(not t for _, _, t in case["rows"]):
         tags.append("empty_id_list")
     ids = {}
